@@ -181,13 +181,34 @@ func (c *BehavCheck) Run() int {
 	}
 	// 2. TLC generates behaviours
 	modName, modText := genModule(c.Sim.Module, c.Sim.Classes)
-	sr, err := tlcrun.Run(tlcrun.Opts{Module: modName, Files: map[string]string{modName + ".tla": modText}, CfgText: c.Sim.cfg(), Workers: c.Sim.Workers, Simulate: fmt.Sprintf("num=%d", c.Sim.Num),
-		Depth: c.Sim.D + 3, Seed: c.Seed, Tag: "TRACE", Timeout: 20 * time.Minute})
-	if err != nil {
-		return fail(2, "INCONCLUSIVE: TLC simulation failed: "+err.Error())
+	// several single-worker TLC processes with different seeds: within one process all workers
+	// draw the same sequence of action classes
+	procs := c.Sim.Workers
+	if procs <= 0 {
+		procs = 8
 	}
-	if sr.Violation != "" {
-		return fail(2, "INCONCLUSIVE: TLC reports a violated invariant during simulation: "+sr.Violation+"\n"+lastLines(sr.Output, 30))
+	srs := make([]*tlcrun.Result, procs)
+	errs := make([]error, procs)
+	var swg sync.WaitGroup
+	for pi := 0; pi < procs; pi++ {
+		swg.Add(1)
+		go func(pi int) {
+			defer swg.Done()
+			srs[pi], errs[pi] = tlcrun.Run(tlcrun.Opts{Module: modName, Files: map[string]string{modName + ".tla": modText}, CfgText: c.Sim.cfg(), Workers: 1,
+				Simulate: fmt.Sprintf("num=%d", c.Sim.Num), Depth: c.Sim.D + 3, Seed: c.Seed*1000 + int64(pi), Tag: "TRACE", Timeout: 20 * time.Minute, JavaOpts: "-Xmx3g"})
+		}(pi)
+	}
+	swg.Wait()
+	sr := &tlcrun.Result{}
+	for pi := 0; pi < procs; pi++ {
+		if errs[pi] != nil {
+			return fail(2, "INCONCLUSIVE: TLC simulation failed: "+errs[pi].Error())
+		}
+		if srs[pi].Violation != "" {
+			return fail(2, "INCONCLUSIVE: TLC reports a violated invariant during simulation: "+srs[pi].Violation+"\n"+lastLines(srs[pi].Output, 30))
+		}
+		sr.Generated += srs[pi].Generated
+		sr.Lines = append(sr.Lines, srs[pi].Lines...)
 	}
 	transitions += sr.Generated
 	var behs []*model.Behaviour
@@ -262,6 +283,11 @@ func (c *BehavCheck) Run() int {
 	knownSeen := map[string]string{}
 	var violations []string
 	replayDir := filepath.Join(VerifDir, "evidence", "replays")
+	if old, _ := filepath.Glob(filepath.Join(replayDir, c.ID+"-*.json")); len(old) > 0 {
+		for _, f := range old {
+			_ = os.Remove(f)
+		}
+	}
 	for idx, r := range results {
 		steps += r.stats.Steps
 		observations += r.stats.Observations
